@@ -41,7 +41,7 @@ def it(a):
 # ----------------------------------------------------------------------------- CP / Tucker regressors
 def draw_reg(c, seed):
     xs, ys, n = tuple(c["xs"]), tuple(c["ys"]), c["n"]
-    rng = _rng(seed, 30, c["model"] == "cp", n, c["rank"], c["reg"], c["k"], REGOPT[c["opt"]][2], c.get("ux", 0) + 100, c.get("uy", 0) + 100, len(ys), *xs)
+    rng = _rng(seed, 30, c["model"] == "cp", n, c["rank"], c["reg"], c["k"], REGOPT[c["opt"]][2], c.get("ux", 0) + 100, c.get("uy", 0) + 100, sorted(["f64", "x32", "xint", "reg32", "reg64"]).index(c.get("ff", "f64")), len(ys), *xs)
     X = rng.integers(-3, 4, size=(n,) + xs).astype(float)
     Wtrue = rng.integers(-2, 3, size=xs + ys).astype(float) / 2.0
     y = np.tensordot(X, Wtrue, axes=(list(range(1, X.ndim)), list(range(len(xs))))) + 0.1 * rng.standard_normal((n,) + ys)
@@ -76,6 +76,34 @@ REG_FORMS = ["float32", "int64", "int32", "uint8", "fortran", "strided"]
 FLOAT_FORMS = ["float32", "fortran", "strided"]      # integer arrays cannot hold data in other units
 
 
+def fit_form(X, ff):
+    """dtype of the training samples (integer valued): float32 / int64 with float64 targets."""
+    return X.astype(np.float32) if ff == "x32" else X.astype(np.int64) if ff == "xint" else X
+
+
+def reg_form(reg, ff):
+    return np.float32(reg) if ff == "reg32" else np.float64(reg) if ff == "reg64" else reg
+
+
+def precision_gap(est, model):
+    """max |weight_tensor_ - dense(factors)| and max |vec_W_ - vec(dense(factors))|, in units of the machine epsilon of
+    the dtype the factors came out in, relative to max(1, |W|)  (definitional measurement; 0 on the unchanged tree)."""
+    from tensorly.cp_tensor import cp_to_tensor
+    from tensorly.tucker_tensor import tucker_to_tensor
+    if model == "cp":
+        w, fs = est.cp_weight_
+        dense = np.asarray(cp_to_tensor((w, fs)))
+    else:
+        G, fs = est.tucker_weight_
+        dense = np.asarray(tucker_to_tensor((G, fs)))
+    fd = np.result_type(*[np.asarray(f).dtype for f in fs])
+    eps = float(np.finfo(fd).eps) if fd.kind == "f" else 1.0
+    scale = max(1.0, float(np.abs(dense).max())) * eps
+    wd = float(np.abs(np.asarray(est.weight_tensor_, dtype=float) - dense).max()) / scale
+    vd = float(np.abs(np.asarray(est.vec_W_, dtype=float).ravel() - dense.ravel()).max()) / scale
+    return {"wd": qs(wd, 1), "vd": qs(vd, 1), "fdtype": str(fd)}
+
+
 def exec_reg(case):
     import tensorly as tl
     from tensorly.regression.cp_regression import CPRegressor
@@ -87,14 +115,15 @@ def exec_reg(case):
     ux, uy = 2.0 ** c["ux"], 2.0 ** c["uy"]          # units (powers of two: every rescaling below is exact)
     based = c["ux"] == 0 and c["uy"] == 0
     ev = {"id": case["id"], "kind": "reg", "cfg": c, "xnew": it(Xnew)}
-    blank = {"weight": EMPTY, "pred": EMPTY, "vec": EMPTY, "dense": EMPTY, "factors": {"fs": [], "w": []}, "forms": [], "refit": {"raised": True}}
+    blank = {"weight": EMPTY, "pred": EMPTY, "vec": EMPTY, "dense": EMPTY, "factors": {"fs": [], "w": []}, "forms": [], "refit": {"raised": True},
+             "prec": {"wd": 0, "vd": 0, "fdtype": ""}}
     tol, nmax, _ = REGOPT[c["opt"]]
     try:
         if c["model"] == "cp":
-            est = CPRegressor(weight_rank=c["rank"], reg_W=c["reg"] / 10.0, n_iter_max=nmax, tol=tol, random_state=rs, verbose=0)
+            est = CPRegressor(weight_rank=c["rank"], reg_W=reg_form(c["reg"] / 10.0, c["ff"]), n_iter_max=nmax, tol=tol, random_state=rs, verbose=0)
         else:
-            est = TuckerRegressor(weight_ranks=list(c["ranks"]), reg_W=c["reg"] / 10.0, n_iter_max=nmax, tol=tol, random_state=rs, verbose=0)
-        est.fit(tl.tensor(X * ux), tl.tensor(y * uy))
+            est = TuckerRegressor(weight_ranks=list(c["ranks"]), reg_W=reg_form(c["reg"] / 10.0, c["ff"]), n_iter_max=nmax, tol=tol, random_state=rs, verbose=0)
+        est.fit(tl.tensor(fit_form(X * ux, c["ff"])), tl.tensor(y * uy))
     except Exception as ex:
         ev.update(blank)
         ev["fit"] = {"raised": True, "exc": type(ex).__name__, "msg": str(ex)[:120]}
@@ -102,6 +131,7 @@ def exec_reg(case):
     ev["fit"] = {"raised": False, "n_iter": int(est.n_iterations_), "exit": "cap" if int(est.n_iterations_) >= nmax else "converged"}
     try:
         wu = ux / uy                                    # weights carry unit(Y) / unit(X)
+        ev["prec"] = precision_gap(est, c["model"])
         ev["weight"] = qt(np.asarray(est.weight_tensor_) * wu)
         ev["vec"] = qt(np.asarray(est.vec_W_) * wu)
         if c["model"] == "cp":
@@ -130,11 +160,12 @@ def exec_reg(case):
         rf = {"raised": False, "x": it(sub), "weight": EMPTY, "vec": EMPTY, "dense": EMPTY, "pred": EMPTY}
         try:
             est.set_params(reg_W=2.0 * c["reg"] / 10.0)
-            est.fit(tl.tensor(X2 * ux), tl.tensor(y2 * uy))
+            est.fit(tl.tensor(fit_form(X2 * ux, c["ff"])), tl.tensor(y2 * uy))
             rf["weight"] = qt(np.asarray(est.weight_tensor_) * wu)
             rf["vec"] = qt(np.asarray(est.vec_W_) * wu)
             rf["dense"] = qt(np.asarray(cp_to_tensor(est.cp_weight_) if c["model"] == "cp" else tucker_to_tensor(est.tucker_weight_)) * wu)
             rf["pred"] = qt(np.asarray(est.predict(tl.tensor(sub * ux))) / uy)
+            rf["prec"] = precision_gap(est, c["model"])
         except Exception as ex:
             rf.update(raised=True, exc=type(ex).__name__)
         ev["refit"] = rf
@@ -161,8 +192,12 @@ def draw_pls(c, seed):
             comp = np.multiply.outer(comp, v / np.linalg.norm(v))
         X += comp
     X += 0.01 * rng.standard_normal(X.shape)
+    if int(np.prod(xs)) > 50000:          # size regime: unstructured data
+        X = rng.standard_normal(X.shape)
     cols = max(ny, 1)
     Y = (T_ * sig) @ rng.standard_normal((K, cols)) + 0.01 * rng.standard_normal((n, cols))
+    if int(np.prod(xs)) > 50000:
+        Y = rng.standard_normal(Y.shape)
     if ny == 0:
         Y = Y[:, 0]
     mtest = 4
@@ -223,6 +258,10 @@ def _fit_pls(c, X, Y, Xtrain_for_transform, Xt, extra=False, perm=None, kbad=0, 
             except Exception as ex:
                 run.update(raised=True, exc=type(ex).__name__)
             x["forms"].append(run)
+        try:
+            x["again"] = _pls_record(_new_pls(c).fit(tl.tensor(X.copy()), tl.tensor(Y.copy())), X, Xt, ux, uy)
+        except Exception as ex:
+            x["again"] = {"raised": True, "exc": type(ex).__name__}
         # a fit that must be rejected, on the same object: other X values, and (a) one sample too many / (b) a 3-mode Y
         rj = {"raised": False, "exc": "", "transform": EMPTY, "pred": EMPTY}
         Xbad = X + 5.0 * ux
@@ -270,7 +309,7 @@ def hung_event(case):
     if c["kind"] == "reg":
         return {"id": case["id"], "kind": "reg", "cfg": c, "xnew": {"shape": [1] + list(c["xs"]), "data": [0] * int(np.prod(c["xs"]))},
                 "fit": {"raised": True, "exc": "Timeout"}, "weight": EMPTY, "pred": EMPTY, "vec": EMPTY, "dense": EMPTY,
-                "factors": {"fs": [], "w": []}, "forms": [], "refit": {"raised": True}}
+                "factors": {"fs": [], "w": []}, "forms": [], "refit": {"raised": True}, "prec": {"wd": 0, "vd": 0, "fdtype": ""}}
     blank = {"raised": True, "exc": "Timeout", "scores": EMPTY, "transform": EMPTY, "loads": [], "yload": EMPTY, "pred": EMPTY}
     return {"id": case["id"], "kind": "pls", "cfg": c, "perm": list(range(c["n"])), "yoff": 1, "mtest": 4,
             "base": dict(blank), "extra": {"raised": True}, "shiftx": dict(blank), "shifty": dict(blank), "permfit": dict(blank)}
